@@ -115,7 +115,8 @@ pub fn body(prefix: &[u8], free: usize, witness: bool) {
             j += 1;
         }
     }
-    cover!(fill_hi > fill_lo && min.is_some() && max.is_some(), "fill, alignment and both widths given");
+    cover!(free < 4 || (fill_hi > fill_lo && min.is_some() && max.is_some()), "fill, alignment and both widths given");
+    cover!(free >= 4 || (fill_hi > fill_lo && (min.is_some() || max.is_some())), "fill, alignment and a width given");
     cover!(!prefix.is_empty() || (right && fill_hi == fill_lo), "alignment without a fill character");
     cover!(prefix.is_empty() || fill_hi == fill_lo, "a multi-byte character after ':' that is not a fill (no alignment follows)");
     cover!(min.is_none() && max.is_some(), "maximum width only");
